@@ -15,6 +15,7 @@ TECHNIQUE = 'runtime monitor: parse -> print -> re-parse on the real functions, 
 RULE = ('cases = corpus + generated templates covering every statement kind x 3 dialects (a statement is used in a dialect iff '
         'accepted) + hostile identifier lexemes (every token word, $/digit/space/dot decorations) in 13 positions; each also through '
         'copy(); non-trivial = accepted with >= 4 tokens; distinct by (dialect, token-type sequence)')
+RULE += '; also: statements in lower / swapped case, edge decimals (17 digits, exponent range), LIMIT/OFFSET 0, parenthesised window functions'
 ASSUMPTIONS = ['identical tree = equal reflective struct (class + all attributes incl. alias and parentheses)',
                'statements rejected on first parse are outside C01']
 BUDGET = {'quick': (16, 270), 'thorough': (16, 1800)}
